@@ -198,6 +198,14 @@ CAN_PC = {"begin": "begin", "poll": "poll", "ps": "ps", "term": "term", "wait": 
 LABEL_KINDS = {"S_": ("sub",), "R_": ("sub",), "H_": ("shut",), "W_": ("wrk",), "C_": ("wrk", "can")}
 
 
+SHUTS = ("s1", "s2")
+
+
+def _tup(x):
+    """JSON lists (thread ids such as ["s1", "j1"]) -> hashable tuples."""
+    return tuple(_tup(y) for y in x) if isinstance(x, (list, tuple)) else x
+
+
 def _true():
     return True
 
@@ -327,7 +335,10 @@ class Replay:
 
     def __init__(self, jobs, mode, has_timeout=(), ignores_term=(), double_delivery=False, solve_dir=None):
         self.jobs = list(jobs)
-        self.mode = mode
+        # mode: the shutdown call of each caller thread, {"s1": .., "s2": ..} (a plain string = s1 only)
+        self.modes = dict(mode) if isinstance(mode, dict) else {"s1": mode, "s2": "none"}
+        for sh in SHUTS:
+            self.modes.setdefault(sh, "none")
         self.has_timeout = set(has_timeout)
         self.ignores_term = set(ignores_term)
         self.double_delivery = double_delivery
@@ -336,7 +347,7 @@ class Replay:
         self.set_result_calls = {j: 0 for j in self.jobs}
         self.seen = {j: "none" for j in self.jobs}
         self.sub_out = {j: None for j in self.jobs}
-        self.shut_out = None
+        self.shut_out = {sh: None for sh in SHUTS}
         self.notes: list[str] = []
         # facts observed on the real objects that name a race (not taken from the model)
         self.appended_with_flag = {j: False for j in self.jobs}     # flag already set when j entered _futures
@@ -356,8 +367,9 @@ class Replay:
         self.job_of = {id(f): j for j, f in self.futs.items() if f is not None}
         for j in self.jobs:
             self.sched.spawn(("sub", j), lambda j=j: self._sub_body(j))
-        if mode != "none":
-            self.sched.spawn(("shut", "-"), self._shut_body)
+        for sh in SHUTS:
+            if self.modes[sh] != "none":
+                self.sched.spawn(("shut", sh), lambda sh=sh: self._shut_body(sh))
 
     def next_pid(self):
         self._pid += 1
@@ -401,25 +413,25 @@ class Replay:
         self.seen[j] = "timeout" if (r == unknown and out.returncode == EXIT_TIMEDOUT) else "tuple"
         self.sub_out[j] = "got"
 
-    def _shut_body(self):
+    def _shut_body(self, sh):
         try:
-            self.ex.shutdown(wait=(self.mode == "wait"))
-            self.shut_out = "returned"
+            self.ex.shutdown(wait=(self.modes[sh] == "wait"))
+            self.shut_out[sh] = "returned"
         except (subprocess.TimeoutExpired, OSError):
-            self.shut_out = "raised"
+            self.shut_out[sh] = "raised"
 
     # -- projection of the real objects onto the variables of Executor.tla
     def observe(self) -> dict:
         th = self.sched.threads
         ex = self.ex
         owner = ex._lock.owner
-        lock = ["free"] if owner is None else (["shut"] if owner[0] == "shut" else ["sub", owner[1]])
+        lock = ["free"] if owner is None else [owner[0], owner[1]]
         o = {
             "flag": bool(ex._shutdown.flag),
             "lock": lock,
             "futures": [self.job_of.get(id(f), "?") for f in ex._futures],
             "spc": {}, "wpc": {}, "proc": {}, "exc": {}, "delivered": {}, "seen": dict(self.seen),
-            "cw": {}, "ch": {}, "sclosed": {},
+            "cw": {}, "ch": {sh: {} for sh in SHUTS}, "sclosed": {}, "hpc": {}, "joining": {},
         }
         for j in self.jobs:
             lt = th[("sub", j)]
@@ -437,13 +449,14 @@ class Replay:
                 op = w.pending.op
                 o["wpc"][j] = WRK_PC.get(op, f"?{op}")
                 o["cw"][j] = op if op in CANCEL_OPS else ("done" if "ps" in w.ops else "none")
-            c = th.get(("can", j))
-            if c is None:
-                o["ch"][j] = "none"
-            elif c.finished:
-                o["ch"][j] = "done" if c.error is None else f"died:{type(c.error).__name__}"
-            else:
-                o["ch"][j] = CAN_PC.get(c.pending.op, f"?{c.pending.op}")
+            for sh in SHUTS:
+                c = th.get(("can", (sh, j)))
+                if c is None:
+                    o["ch"][sh][j] = "none"
+                elif c.finished:
+                    o["ch"][sh][j] = "done" if c.error is None else f"died:{type(c.error).__name__}"
+                else:
+                    o["ch"][sh][j] = CAN_PC.get(c.pending.op, f"?{c.pending.op}")
             f = self.futs[j]
             if f is None:  # solve_low_level has not created/submitted it yet
                 o["proc"][j], o["sclosed"][j], o["exc"][j], o["delivered"][j] = "none", False, "none", 0
@@ -456,15 +469,16 @@ class Replay:
             o["delivered"][j] = self.set_result_calls[j]
             if (self.set_result_calls[j] >= 1) != f.done():
                 o["delivered"][j] = f"calls={self.set_result_calls[j]},done={f.done()}"
-        s = th.get(("shut", "-"))
-        if s is None:
-            o["hpc"] = "idle"
-        elif s.finished:
-            o["hpc"] = self.shut_out if s.error is None else f"died:{type(s.error).__name__}"
-        else:
-            o["hpc"] = SHUT_PC.get(s.pending.op, f"?{s.pending.op}")
-            if s.pending.op == "result":
-                o["joining"] = self.job_of.get(id(s.pending.info), "?")
+        for sh in SHUTS:
+            s = th.get(("shut", sh))
+            if s is None:
+                o["hpc"][sh] = "idle"
+            elif s.finished:
+                o["hpc"][sh] = self.shut_out[sh] if s.error is None else f"died:{type(s.error).__name__}"
+            else:
+                o["hpc"][sh] = SHUT_PC.get(s.pending.op, f"?{s.pending.op}")
+                if s.pending.op == "result":
+                    o["joining"][sh] = self.job_of.get(id(s.pending.info), "?")
         return o
 
     def running_jobs(self):
@@ -479,7 +493,7 @@ class Replay:
         p.state = "exited"
 
     def do(self, label: dict):
-        k, j, a = label["k"], label["j"], label["a"]
+        k, j, a = label["k"], _tup(label["j"]), label["a"]
         if k == "env":
             self.env_exit(j)
             return
@@ -494,20 +508,21 @@ class Replay:
         th = self.sched.threads
         if k == "sub" and len(self.ex._futures) == nfut_before + 1:
             self.appended_with_flag[j] = bool(self.ex._shutdown.flag)
-            s = th.get(("shut", "-"))
-            self.appended_after_return[j] = bool(s is not None and s.finished)
+            self.appended_after_return[j] = any(
+                th.get(("shut", sh)) is not None and th[("shut", sh)].finished for sh in SHUTS)
         if k == "can":
-            c, w = th[("can", j)], th.get(("wrk", j))
-            if (c.finished and c.ops == ["begin"] and self.futs[j] is not None and self.futs[j].process is None
+            job = j[1]
+            c, w = th[("can", j)], th.get(("wrk", job))
+            if (c.finished and c.ops == ["begin"] and self.futs[job] is not None and self.futs[job].process is None
                     and w is not None and not w.finished and w.pending.op == "popen"):
-                self.cancel_found_no_process[j] = True
+                self.cancel_found_no_process[job] = True
 
     def drain(self, limit=500):
         """Run everything to completion with default choices (used after a schedule prefix)."""
         n = 0
         while n < limit:
             n += 1
-            en = sorted(self.sched.enabled_keys())
+            en = sorted(self.sched.enabled_keys(), key=repr)
             if en:
                 lt = self.sched.threads[en[0]]
                 for lab, g in lt.pending.guards.items():
@@ -583,7 +598,7 @@ class FakeLock:
         self.owner = s.current().key
         cur = s.current()
         if self.owner[0] == "shut":  # what shutdown does under the lock is one action of its own
-            nowait = _rp().mode == "nowait"
+            nowait = _rp().modes[self.owner[1]] == "nowait"
             s.yield_point("lock_acquired", {"H_CancelAll": lambda: nowait, "H_Snapshot": lambda: not nowait})
         elif "is_set" in cur.ops:
             # flag tested BEFORE the lock was taken (order of the code before 929919f; only reached by the
@@ -687,7 +702,7 @@ class FakePool:
             fn(*a, **kw)
             t.finished = True
 
-        rp.sched.spawn(("can", j), body)
+        rp.sched.spawn(("can", (rp.sched.current().key[1], j)), body)
         return t
 
 
@@ -763,10 +778,11 @@ def compare(expected: dict, observed: dict) -> list[str]:
     for k in COMPARED:
         if k in expected and expected[k] != observed.get(k):
             out.append(f"{k}: spec={expected[k]!r} code={observed.get(k)!r}")
-    if expected.get("hpc") == "joining" and "snap" in expected:
-        want = expected["snap"][expected["hidx"] - 1]
-        if observed.get("joining") != want:
-            out.append(f"joining: spec={want!r} code={observed.get('joining')!r}")
+    for sh, pc in (expected.get("hpc") or {}).items():
+        if pc == "joining" and "snap" in expected:
+            want = expected["snap"][sh][expected["hidx"][sh] - 1]
+            if observed.get("joining", {}).get(sh) != want:
+                out.append(f"joining[{sh}]: spec={want!r} code={observed.get('joining', {}).get(sh)!r}")
     return out
 
 
@@ -824,12 +840,13 @@ def _property_monitor(rp: Replay, obs: dict, out: list, step: int):
     for j in rp.jobs:
         if rp.appended_after_return[j]:
             out.append(("accepted-after-shutdown-returned", j, step))
-    if rp.mode == "nowait" and obs["hpc"] == "returned":
+    if any(rp.modes[sh] == "nowait" and obs["hpc"][sh] == "returned" for sh in SHUTS):
         for j in rp.running_jobs():
             out.append(("running-after-shutdown-nowait", j, step))
-    if rp.mode == "wait" and obs["hpc"] in ("returned", "raised"):
-        for j in rp.running_jobs():
-            out.append(("running-after-shutdown-wait:" + obs["hpc"], j, step))
+    for sh in SHUTS:
+        if rp.modes[sh] == "wait" and obs["hpc"][sh] in ("returned", "raised"):
+            for j in rp.running_jobs():
+                out.append(("running-after-shutdown-wait:" + obs["hpc"][sh], j, step))
 
 
 def replay_schedule(
@@ -847,7 +864,7 @@ def replay_schedule(
             for i, st in enumerate(steps):
                 lab = st["a"]
                 if check_enabled and "en" in st:
-                    want = {tuple(x) for x in st["en"]}
+                    want = {_tup(x) for x in st["en"]}
                     got = rp.sched.enabled_keys()
                     if want != got:
                         raise Divergence(
